@@ -33,11 +33,11 @@ def prove(rep, nmfu, program, prop):
                 inner = x
     base = f"{FNQ}.create_real_state_of"
     if inner is None:
-        rep.undecided_ob(f"{prop}/pyvc/{base}/extraction", "nested function create_real_state_of not found in CaseNode._merge")
+        rep.unavailable(f"{prop}/pyvc/{base}/extraction", "nested function create_real_state_of not found in CaseNode._merge")
         return 0
     free = {n.id for n in ast.walk(inner) if isinstance(n, ast.Name)} & {"priorities", "corresponding_finish_states", "new_dfa", "converted_states", "self"}
     if free != {"priorities", "corresponding_finish_states", "new_dfa", "converted_states", "self"}:
-        rep.undecided_ob(f"{prop}/pyvc/{base}/extraction", f"closure variables changed: {sorted(free)}")
+        rep.unavailable(f"{prop}/pyvc/{base}/extraction", f"closure variables changed: {sorted(free)}")
         return 0
     rep.fn(base)
     contracts = {"ProgramData.imbue": lambda e, a, k: a[0], "ProgramData.lookup": lambda e, a, k: None}
@@ -177,5 +177,5 @@ def run(rep, prop):
     try:
         return prove(rep, nmfu, Program(nmfu, common.repo_source()), prop)
     except (Unsupported, NeedFork, KeyError, AttributeError) as e:
-        rep.undecided_ob(f"{prop}/pyvc/{FNQ}.create_real_state_of/engine", f"outside the modelled Python subset: {type(e).__name__}: {e}")
+        rep.unavailable(f"{prop}/pyvc/{FNQ}.create_real_state_of/engine", f"outside the modelled Python subset: {type(e).__name__}: {e}")
         return 0
